@@ -51,11 +51,11 @@ def plan(tier, seed):
     for fam in FAMS:
         specs.append(dict(label=fam, family=fam, histories=10 if q else 100,
                           seed=seed, tier=tier, variant='mon',
-                          timeout=900 if q else 3000))
+                          timeout=900 if q else 7200))
     for fam in (['OO', 'IO', 'OI'] if q else FAMS):
         specs.append(dict(label=fam + '-asan', family=fam,
                           histories=3 if q else 25, seed=seed + 9, tier=tier,
-                          variant='asan', timeout=1500 if q else 3400))
+                          variant='asan', timeout=1500 if q else 7200))
     return specs
 
 
